@@ -27,7 +27,7 @@ def main():
         lines = [l[:300] for l in (p.stdout + p.stderr).splitlines() if l.startswith(("VIOLATION", "KNOWN-FINDING", "ENCODING-ERROR", "INCONCLUSIVE", "[" + prop))]
         meta = json.load(open(os.path.join(sdir, "meta.json")))
         meta.setdefault("ran", []).append({"cmd": f"VERIF_REPO=<tree with patch> {' '.join(cmd)}", "exit": p.returncode, "wall_s": round(time.time() - t0),
-                                          "lines": lines[:8], "when": "after the E3 engine (DESIGN.md section 11)"})
+                                          "lines": lines[:8], "when": os.environ.get("RESEED_WHEN", "after the E3 engine (DESIGN.md section 11)")})
         json.dump(meta, open(os.path.join(sdir, "meta.json"), "w"), indent=1)
         print(f"{sid}: {' '.join(cmd)} exit={p.returncode} " + " | ".join(l[:120] for l in lines[:2]))
     finally:
